@@ -136,8 +136,9 @@ func (v *aInterface) emitGetData(destType ValueType, commaOk bool) (insts []wat.
 		ifBlock.True = destType.EmitLoadFromAddr(v.ExtractByName("d").(*aRef).ExtractByName("d"), 0)
 	}
 
-	// false:
-	ifBlock.False = NewConst("0", destType).EmitPush()
+	// false: the zero value of destType. The literal "0" is the zero of every scalar, but for a
+	// string it is the one-character string "0" (also inside structs and arrays).
+	ifBlock.False = zeroConst(destType).EmitPush()
 
 	if commaOk {
 		ifBlock.Ret = append(ifBlock.Ret, wat.I32{})
@@ -149,6 +150,27 @@ func (v *aInterface) emitGetData(destType ValueType, commaOk bool) (insts []wat.
 
 	insts = append(insts, ifBlock)
 	return
+}
+
+// zeroConst builds the constant zero value of t.
+func zeroConst(t ValueType) Value {
+	switch tt := t.(type) {
+	case *String:
+		return NewConst("", t)
+	case *Struct:
+		sv := newValue_Struct("0", ValueKindConst, tt)
+		for _, f := range tt.fields {
+			sv.setFieldConstValue(f.Name(), zeroConst(f.Type()))
+		}
+		return sv
+	case *Array:
+		av := newValue_Array("0", ValueKindConst, tt)
+		for _, f := range tt.underlying.fields {
+			av.aStruct.setFieldConstValue(f.Name(), zeroConst(f.Type()))
+		}
+		return av
+	}
+	return NewConst("0", t)
 }
 
 func (v *aInterface) emitQueryInterface(destType ValueType, commaOk bool) (insts []wat.Inst) {
